@@ -5,7 +5,7 @@
   parser of src/parser/mod.rs on tokens, `SerializableRule::from_rule/to_rule`, the catalog file,
   the three submission paths).  Lemmas: ILV.Lemmas.Text.
 -/
-import ILV.Lemmas.Text
+import ILV.Lemmas.TextRule
 namespace ILV.Props.C09
 open ILV.Text
 
@@ -36,6 +36,27 @@ theorem arith_roundtrip_needs_litStable :
 theorem arith_roundtrip_needs_names :
     ∃ e : AExpr, e.litStable = true ∧ parseArith (printArith e) ≠ some e :=
   ⟨.bin .sub (.var "V1e") (.const 1), by decide, by decide⟩
+
+/-! ### terms and rules: parse ∘ print = id -/
+
+/-- Every well-formed term whose float literals are stable and whose arithmetic hides no `+`/`-`
+    is read back from its printed tokens: variables, integers, floats, strings, booleans, `_`,
+    arithmetic, aggregates, vectors and builtin calls. -/
+theorem term_roundtrip (t : Term) (hwf : t.wf = true) (hl : t.litStable = true) (hs : t.sciHidden = false) :
+    parseTerm (printTerm t) = some t := ILV.Text.term_roundtrip t hwf hl hs
+
+example :
+    let t : Term := .call "euclidean" [.var "V", .vec [⟨0x3ff0000000000000, "1", none⟩, ⟨0, "0", none⟩],
+      .arith (.bin .sub (.var "Y") (.const 3))]
+    t.wf = true ∧ t.litStable = true ∧ t.sciHidden = false ∧ parseTerm (printTerm t) = some t := by decide
+
+/-- Every well-formed rule (`Rule.wf`: what the parser produces — variable-shaped variables, an operator at
+    the root of every arithmetic term, canonical aggregate / builtin names, no aggregate or vector as a
+    comparison side) with stable float literals, no hidden `+`/`-` and no atom whose last argument prints
+    with a closing parenthesis is read back from its printed tokens — head, `<-`, comma-separated
+    positive / negated atoms and comparisons. -/
+theorem rule_roundtrip (r : Rule) (hwf : r.wf = true) (hl : r.litStable = true) (hs : r.sciHidden = false)
+    (hp : r.atomParen = false) : parseRule (printRule r) = some r := ILV.Text.rule_roundtrip r hwf hl hs hp
 
 /-! ### the paths, relative to the print/parse round trip -/
 
@@ -122,16 +143,25 @@ theorem C09_refuted_json_inexact :
 
 /-! ### what holds -/
 
-/-- C09_partial: every rule on which print ∘ parse is the identity — for the arithmetic inside it this is
-    `arith_roundtrip`, i.e. `litStable` and no hidden `+`/`-` — that uses only serialisable terms and
-    exactly-stored floats behaves identically on all paths.  Excluded inputs, each by a decidable
-    predicate of the rule: `¬ litStable` (integral float literals), `sciHidden`, `atomParen`,
-    `serRule r ≠ r` (booleans, vectors, function calls), `¬ jsonExact`. -/
-theorem C09_partial (r : Rule)
-    (hrt : parseRule (printRule r) = some r) (hser : r.serStable = true) (hj : r.jsonExact = true) :
+/-- C09_partial: every well-formed rule outside the five excluded families — each named by a decidable
+    predicate of the rule: `¬ litStable` (integral float literals), `sciHidden` (`+`/`-` after an
+    identifier ending in `<digit>e`), `atomParen` (last atom argument ends in `)`), `¬ serStable`
+    (booleans, vectors, function calls, which the catalog serialisation drops), `¬ jsonExact` (floats
+    serde_json does not read back exactly) — reaches the engine unchanged on the session path, the
+    persistent path and the persistent path after restart, i.e. behaves as the inline rule. -/
+theorem C09_partial (r : Rule) (hwf : r.wf = true)
+    (hl : r.litStable = true) (hs : r.sciHidden = false) (hp : r.atomParen = false)
+    (hser : r.serStable = true) (hj : r.jsonExact = true) :
     viaSession r = viaInline r ∧ viaPersistent r = viaInline r ∧ viaRestart r = viaInline r :=
-  paths_agree_of_roundtrip r hrt (by simpa [Rule.serStable] using hser) hj
+  paths_agree_of_roundtrip r (rule_roundtrip r hwf hl hs hp) (by simpa [Rule.serStable] using hser) hj
 
-example : exRule.serStable = true ∧ exRule.litStable = true ∧ exRule.sciHidden = false ∧ exRule.atomParen = false := by decide
+/-- each excluded family is necessary: dropping its hypothesis alone is refuted by the witnesses above -/
+example : wFloat.wf = true ∧ wFloat.sciHidden = false ∧ wFloat.atomParen = false ∧ wFloat.serStable = true ∧ wFloat.jsonExact = true := by decide
+example : wSci.wf = true ∧ wSci.litStable = true ∧ wSci.atomParen = false ∧ wSci.serStable = true ∧ wSci.jsonExact = true := by decide
+example : wParen.wf = true ∧ wParen.litStable = true ∧ wParen.sciHidden = false ∧ wParen.serStable = true ∧ wParen.jsonExact = true := by decide
+example : wBool.wf = true ∧ wBool.litStable = true ∧ wBool.sciHidden = false ∧ wBool.atomParen = false ∧ wBool.jsonExact = true := by decide
+example : wUlp.wf = true ∧ wUlp.litStable = true ∧ wUlp.sciHidden = false ∧ wUlp.atomParen = false ∧ wUlp.serStable = true := by decide
+
+example : exRule.wf = true ∧ exRule.serStable = true ∧ exRule.litStable = true ∧ exRule.sciHidden = false ∧ exRule.atomParen = false ∧ exRule.jsonExact = true := by decide
 
 end ILV.Props.C09
